@@ -206,6 +206,9 @@ fn run_exporter(a: &Args) -> Report {
         let timeout_ns: Option<u64> = if r.chance(1, 8) { None } else { Some(*r.pick(&[10u64, 1000, 1_000_000_000])) };
         let mut b = PrometheusBuilder::new().idle_timeout(mask_of(bits), timeout_ns.map(Duration::from_nanos));
         if r.chance(1, 2) {
+            b = b.add_global_label("env", "prod");
+        }
+        if r.chance(1, 2) {
             b = b.set_buckets(&[1.0, 2.0]).unwrap();
         }
         let rec = b.verif_build_with_clock(clock.clone());
